@@ -10,10 +10,10 @@ from vlib.props.C08 import model_compare
 
 MODS = ['S4V.Props.C18']
 LEVEL_NOTE = ("Proved on the protocol model of temporary files, with the order of operations regenerated from the source on every run (creation+listing "
-              "under the NAMED_TEMP_FILES lock; reader dropped before the final summary): a normal run leaves no file although main does not join the workers "
-              "(C18_normal); after a SIGINT at any moment no file remains provided no worker creates its file after the handler ran (C18_sigint); the unrestricted "
-              "statement is false (late creation; a microsecond window at start-up) and both repaired defects are kept as counter-models (gap_without_lock, "
-              "summary_before_drop). Tied to the code by H3 sleeps that widen exactly those windows in the real binary: leftovers in a private TMPDIR must equal "
+              "under the NAMED_TEMP_FILES lock; reader dropped before the final summary; creation refused once the handler has run - the NAMED_TEMP_FILES_CLOSED flag, "
+              "set and tested under that lock): a normal run leaves no file although main does not join the workers (C18_normal); after a SIGINT at ANY moment, "
+              "with the process exiting at any moment after it, no file remains (C18_full_holds / C18_sigint, no proviso); the three repaired defects are kept as "
+              "counter-models (gap_without_lock, summary_before_drop, late_create_without_flag: without the flag the statement needs the proviso NoLateCreate). Tied to the code by H3 sleeps that widen exactly those windows in the real binary: leftovers in a private TMPDIR must equal "
               "the model's prediction. Promptness of the interrupt is measured, not proved: known finding F15.")
 ASSUME = ["OS signal delivery, process exit killing threads, tempfile::NamedTempFile deleting on drop, ctrlc running the handler on its own thread",
           "which step of a worker coincides with the signal is arranged by sleeps (H3), not observed"]
@@ -111,6 +111,25 @@ def oracle_and_corr(ctx):
         impl.append(str(len(left)))
         if len(samples) < 4:
             samples.append({'oracle': 'C18', **desc, 'leftovers': len(left)})
+    # --- late creation: the handler runs BEFORE a worker reaches decompress_to_ntf (H3: the worker sleeps before taking the
+    #     lock; the main thread lingers after EXIT_EARLY; a file created now is held while the process exits)
+    for k in range(ctx.q(2, 8)):
+        env = dict(base_env)
+        env['S4_VERIF_SLEEP_BEFORE_NTF_MS'] = '1500'
+        env['S4_VERIF_SLEEP_NTF_CREATED_MS'] = '3000'
+        env['S4_VERIF_SLEEP_BEFORE_EARLY_EXIT_MS'] = '2500'
+        env['S4_VERIF_DELAYS'] = '%d:300000' % (ctx.seed * 31 + k)
+        srcs = [textlog, textlog2] + sources(ctx, rng, 1)
+        rc, lat, err = run_s4(srcs, env, sig_at=0.4)
+        ev += 1
+        left = leftovers(tmpdir)
+        desc = {'scenario': 'sigint-before-a-worker-creates-its-file', 'sources': [os.path.basename(s) for s in srcs], 'signal_at_s': 0.4, 'exit_latency_s': lat}
+        if left:
+            failures.append({'signature': 'tmp:leftover-after-sigint', 'detail': f'{len(left)} file(s) left: {left[:3]}', 'case': desc})
+        reqs.append('tmp late 1')
+        impl.append(str(len(left)))
+        if len(samples) < 5:
+            samples.append({'oracle': 'C18', **desc, 'leftovers': len(left)})
     # --- one source fails half-way through its decompression while other workers own listed temp files, then SIGINT:
     #     the failing worker must clean up ITS file only; the handler must still find (and remove) every other one
     import lzma
@@ -178,7 +197,7 @@ def oracle_and_corr(ctx):
         failures.append({'signature': 'tmp:leftover-after-sigint', 'detail': f'{left[:3]}', 'case': {'scenario': 'silent worker'}})
     orc = {'evaluations': ev, 'distinct_nontrivial': ev, 'failures': failures, 'samples': samples,
            'rule': 'private TMPDIR listed after exit: normal runs over 1-4 compressed journal/evtx sources (half with the worker stalled 250 ms after its final summary), '
-                   'SIGINT inside the widened create/list window, SIGINT right after one source failed half-way through its decompression while others own temp files, SIGINT at 0-200 ms of ordinary runs with and without delay plans, and one silent-worker run for '
+                   'SIGINT inside the widened create/list window, SIGINT handled before a worker reaches decompress_to_ntf (the worker must be refused), SIGINT right after one source failed half-way through its decompression while others own temp files, SIGINT at 0-200 ms of ordinary runs with and without delay plans, and one silent-worker run for '
                    'signal-to-exit latency; every run is a distinct (sources, plan, signal time) combination'}
     corr = model_compare(ctx, 'tmp-scenarios', reqs, impl)
     return orc, [corr]
